@@ -198,14 +198,14 @@ def translator_tie():
     if rc != 0:
         return {"tie": "correspondence-only", "reason": "translator: " + (err.strip().splitlines() or ["failed"])[-1][:300]}
     if out == committed:
-        return {"tie": "regenerated-identical", "generated_definitions": ["cached_parse_nodeid", "parse_nodeid", "nodeid_str"]}
+        return {"tie": "regenerated-identical", "generated_definitions": ["cached_parse_nodeid", "parse_nodeid", "nodeid_str", "extend_namespace_map"]}
     tie = open(os.path.join(LEAN, "OpcuaModel", "Gen", "NodeIdTie.lean"), encoding="utf-8").read()
     body = "\n".join(l for l in out.splitlines() if not l.startswith("import "))
     tie_body = "\n".join(l for l in tie.splitlines() if not l.startswith("import "))
     d = tempfile.mkdtemp(prefix="opcua_tie_")
     try:
         f = os.path.join(d, "Tie.lean")
-        open(f, "w", encoding="utf-8").write("import OpcuaModel.Gen.PyPrims\nimport OpcuaModel.Props.C09\n" + body + "\n" + tie_body + "\n")
+        open(f, "w", encoding="utf-8").write("import OpcuaModel.Gen.PyPrims\nimport OpcuaModel.Props.C09\nimport OpcuaModel.Props.C03\n" + body + "\n" + tie_body + "\n")
         rc2, out2, err2 = sh(["lake", "env", "lean", f], cwd=LEAN, timeout=900)
     finally:
         shutil.rmtree(d, ignore_errors=True)
